@@ -29,8 +29,14 @@ def main():
     demo = open(os.path.join(src, "demo_test.go")).read()
     m = re.match(r"//\s*dir:\s*(\S+)", demo)
     ddir = m.group(1) if m else "."
+    head = "\n".join(demo.splitlines()[:5])  # optional header lines: "// needs: -race", "// run: <TestName>"
+    if re.search(r"^//\s*needs:.*-race", head, re.M) and "-race" not in race:
+        race = "-race " + race
+    mr = re.search(r"^//\s*run:\s*(\S+)", head, re.M)
+    if mr and "-run" not in race:
+        race += "-run '%s' " % mr.group(1)
     dpath = os.path.join("/repo", ddir, "zz_seeded_demo_test.go")
-    out = {"id": sid, "property": prop, "needs_to_manifest": needs, "demo_run_with_race_detector": bool(race), "ran": []}
+    out = {"id": sid, "property": prop, "needs_to_manifest": needs, "demo_run_with_race_detector": "-race" in race, "ran": []}
     try:
         # demonstration on the unchanged tree
         shutil.copy(os.path.join(src, "demo_test.go"), dpath)
